@@ -32,7 +32,8 @@ ASSUMPTIONS = [
 ]
 
 TOL = 1e-9
-FLOOR = 1e-11  # outcomes with probability below this are unreachable for the scheduler (rounding-noise outcomes are ~1e-32)
+FLOOR = 1e-11  # circuits: outcomes below this are unreachable for the scheduler (the SUT applies the gates itself: its 1e-16 rounding noise is amplified by 1/sqrt(p))
+RFLOOR = 1e-24  # register: the SUT measures the very array the model holds, so forcing outcomes down to 1e-24 is exact up to relative rounding (noise outcomes are ~1e-32)
 
 
 def budget(tier):
@@ -143,7 +144,7 @@ def generate(run_seed, index, tier):
             elif x < 0.7:
                 ops.append(maybe_fault({'op': 'nested', 'grow': r.getrandbits(6), 'pick': r.randrange(64)}))
             elif x < 0.73 and r.random() < 0.5:
-                ops.append({'op': 'reach', 'S': _rand_subset(r, n), 'seed0': r.getrandbits(31), 'K': 300})
+                ops.append({'op': 'reach', 'S': _rand_subset(r, n), 'seed0': r.getrandbits(31), 'K': 300, 'mode': r.choice(['int', 'int', 'none'])})
             elif x < 0.92:
                 ops.append(_gate_op(r, n))
             else:
@@ -361,16 +362,20 @@ class Sim:
             raise Violation('born', api, f'probability has shape {getattr(prob, "shape", None)}, expected ({2**len(S)},) for S={S}')
         if prob.min() < 0 or abs(prob.sum() - 1) > TOL or np.abs(prob - p).max() > TOL:
             raise Violation('born', api, f'probabilities {np.round(prob, 6).tolist()} are not the Born marginals {np.round(p, 6).tolist()} for S={S} of {n} qubits')
+        big = p > RFLOOR
+        if np.any(np.abs(prob[big] - p[big]) > 1e-6 * p[big]):
+            j = int(np.nonzero(big)[0][np.argmax(np.abs(prob[big] - p[big]) / p[big])])
+            raise Violation('born', api, f'outcome {j} of S={S} has Born probability {p[j]:.6g} but {prob[j]:.6g} is reported (relative error {abs(prob[j] - p[j]) / p[j]:.3g})')
         bs = [int(b) for b in bitstr]
         if len(bs) != len(S) or any(b not in (0, 1) for b in bs):
             raise Violation('support', api, f'bit string {bitstr} is not a 0/1 list of length {len(S)}')
         a = 0
         for b in bs:
             a = (a << 1) | b
-        if p[a] <= FLOOR / 10:
+        if p[a] <= RFLOOR / 10:
             raise Violation('support', api, f'outcome {bs} on S={S} has model probability {p[a]:.3g}')
         if scripted_pick is not None:
-            supp = np.nonzero(np.asarray(sut_prob_for_pick) > FLOOR)[0]
+            supp = np.nonzero(p > RFLOOR)[0]  # the model's support: an outcome the SUT hides from the sampler shifts the pick
             exp = int(supp[scripted_pick % len(supp)])
             if a != exp:
                 raise Violation('support', api, f'scheduler chose outcome index {exp} of S={S} but the bit string {bs} encodes {a}')
@@ -396,7 +401,7 @@ class Sim:
         mq = self.nq.sim.state.measure_quantum_vector
 
         def mk_seed():
-            return seams.ScriptedGenerator(seed=7, script=[pick], floor=FLOOR) if pick is not None else int(seed)
+            return seams.ScriptedGenerator(seed=7, script=[pick], floor=RFLOOR) if pick is not None else int(seed)
 
         form = (pick if pick is not None else int(seed)) % 4
         if len(S) == 1 and form == 0:
@@ -448,6 +453,9 @@ class Sim:
         if not S:
             return
         pre = self.psi.copy()
+        if pick is not None and np.any(np.abs(born.marginals(pre, S) - RFLOOR) < 1e-3 * RFLOOR):
+            self.bump('probe.floor_boundary_skip')
+            return
         val = self.sut_measure(world, op, S, pick, seed)
         if val is None:
             self.shape.append('M')
@@ -521,13 +529,13 @@ class Sim:
             pre = self.psi.copy()
             for j in range(int(op['K'])):
                 try:
-                    bs, prob, post = mq(self.psi, tuple(S), int(op['seed0']) + j)
+                    bs, prob, post = mq(self.psi, tuple(S), None if op.get('mode') == 'none' else int(op['seed0']) + j)
                 except Exception as e:
                     raise Violation('unexpected_exception', 'measure_quantum_vector', f'{type(e).__name__}: {e} for S={S} seed={int(op["seed0"]) + j}')
                 a = 0
                 for b in bs:
                     a = (a << 1) | int(b)
-                if a >= len(p) or p[a] <= FLOOR / 10:
+                if a >= len(p) or p[a] <= RFLOOR / 10:
                     raise Violation('support', 'measure_quantum_vector', f'seed {int(op["seed0"]) + j}: outcome {list(bs)} on S={S} has model probability {p[a] if a < len(p) else None}')
                 seen.add(a)
             if np.abs(self.psi - pre).max() > 0:
